@@ -118,3 +118,14 @@ check("C17", "model_checking",
       "ResultsTrace.",
       "trusted: TLC; integer-valued records and point sets; gd compared in 1e-3 units through an integer square root",
       "TLC exhaustive model + TLC-simulated record lists replayed + TLC trace validation", "DESIGN.md 5/C17")
+
+check("C19", "model_checking",
+      "Surrogate.tla: one Request(accept) action with the trained flag, evaluation / prediction counters, training set, train count and "
+      "objective calls; TLC checks for train_step in {-1,1,2,3} (thorough also 4,5), both initial trained states, the pass-through mode and "
+      "all accept/decline sequences up to 7 (10) requests: counters add up, one objective call per true evaluation, data aligned and in "
+      "order, retrained exactly at every train_step-th true evaluation, prediction only when trained (action property), monotonicity. "
+      "SurrogateGen emits EVERY sequence of length 6 (8); each is replayed through a counting subclass of SurrogateModelPredict, the real "
+      "SurrogateModelScikit (1-NN regressor) and SurrogateModelEval with a scripted Problem.predict hook; SurrogateTrace replays the same "
+      "Request action and compares every observable after every request; random sequences up to 60 requests / train steps up to 10.",
+      "trusted: TLC; scripted predict hook; train() counted by wrapping the public method; SurrogateModelSMT not exercised",
+      "TLC exhaustive model + every TLC-emitted request sequence replayed + TLC trace validation with the model's own action", "DESIGN.md 5/C19")
